@@ -632,11 +632,10 @@ def effect(U, a: A, op):
             _attach(b, y, c, pos=i)
             return [b], None
         others = [v for v in lst if v != y]
-        if y in lst and 0 <= i <= len(others):
-            # a member of the same list is moved: afterwards it stands at index i, the others keep their order
-            b = a.copy()
-            _lst(b, c)[:] = others[:i] + [y] + others[i:]
-            return [b], None
+        # a member of the same list: the statement fixes the position for a NEW task only ("insert(i) puts a new task at index i");
+        # for a member it promises that the other siblings keep their order - every position of y is admitted. (A stricter
+        # reference - y stands at index i afterwards - was tried after seed C16-w12 and withdrawn: an independent benign change
+        # counts the index against the list as it stands, like list.insert, which the statement allows. DESIGN 8.3.)
         res = []
         for arr in _interleavings(others, [y]):
             b = a.copy()
